@@ -33,7 +33,7 @@ SHARDS = {"quick": 1, "thorough": 16}
 SHARD_TIMEOUT = {"thorough": 2400}
 N_SPECS = {"quick": 1500, "thorough": 5000}
 N_HUGE = {"quick": 30, "thorough": 60}
-HUGE_KINDS = ["across_blocks", "single_block_product", "context_x_source"]
+HUGE_KINDS = ["across_blocks", "single_block_product", "context_x_source", "source_product"]
 STEP_EVENT = {"quick": "LINE", "thorough": "INSTRUCTION"}     # logical step = line / bytecode inside run_space.py
 
 
@@ -44,7 +44,7 @@ def _huge_case(base_seed: int, i: int):
     if i % 10 == 9:
         spec, files = M.control_spec(r, i)
         return "control", spec, files
-    where = HUGE_KINDS[i % 3]
+    where = HUGE_KINDS[i % len(HUGE_KINDS)]
     spec, files = M.huge_spec(r, where, i)
     return where, spec, files
 
